@@ -1,7 +1,7 @@
 (* Property C20 — cue sheet text import reproduces the layout the text describes.
    Statements only; proofs in Cue_proofs.v.  The text side is ASCII for the significant
    lines (keywords, digits, colon and double quote); skipped lines and white space may be anything. *)
-From FlacMeta Require Import Bytes Blocks Cue Accessors CueRender Cue_proofs.
+From FlacMeta Require Import Bytes Blocks Cue Accessors CueRender Cue_proofs Cue_proofs2.
 Open Scope N_scope.
 
 (* For a stream of a whole number of CD sectors, a text whose significant lines (after
@@ -20,6 +20,35 @@ Proof. exact cue_import. Qed.
 Theorem C20_offset_from_str : forall st i, wf_index i -> ci_mm i < 100000000000000000000 ->
   cdda_offset_from_str (time_text st i) = Some ((ci_ff i + 75 * ci_ss i + 4500 * ci_mm i) * 588).
 Proof. exact time_text_parses. Qed.
+
+(* the track ranges of the imported block run from each track's INDEX 01 to the next track's
+   INDEX 01, the last one to the stream length *)
+Theorem C20_ranges : forall c total b, wf_cue c -> block_of c total = Some b ->
+  track_sample_ranges b = pair_up (map index01_samples (cu_tracks c) ++ [total]).
+Proof. exact import_ranges. Qed.
+
+(* the hypothesis of C20_import is met by every decoration (indentation, trailing blanks of
+   any White_Space characters but newline, LF or CRLF) of the lines of a well-formed sheet in
+   every accepted spelling; lines the parser skips may be added anywhere (they are filtered) *)
+Theorem C20_render_matches : forall st c decos, wf_style st -> wf_cue c ->
+  length decos = length (cue_lines st c) -> Forall wf_deco decos ->
+  cue_text_matches st c (render decos (cue_lines st c)) = true.
+Proof. exact render_matches. Qed.
+
+Theorem C20_import_rendered : forall (p : profile) st c decos total, wf_style st -> wf_cue c ->
+  length decos = length (cue_lines st c) -> Forall wf_deco decos ->
+  total mod 588 = 0 -> before_end c total ->
+  exists b, block_of c total = Some b /\ cue_parse p total (render decos (cue_lines st c)) = Ok b /\
+            track_sample_ranges b = pair_up (map index01_samples (cu_tracks c) ++ [total]).
+Proof. exact render_import. Qed.
+
+(* exporting the imported block as text (Display, any file name without a newline) and
+   importing that text again reproduces the same track and index layout and track ranges *)
+Theorem C20_export_import : forall (p : profile) c total b fname,
+  wf_cue c -> total mod 588 = 0 -> before_end c total -> block_of c total = Some b -> no_nl fname ->
+  exists b', cue_parse p total (display b fname) = Ok b' /\ layout b' = layout b /\
+             track_sample_ranges b' = track_sample_ranges b.
+Proof. exact display_import. Qed.
 
 (* non-vacuity: a two-track sheet with a pre-gap, flags, ISRC and catalog, minutes above 99 *)
 Definition C20_example : cue :=
